@@ -45,15 +45,22 @@
 //   [begin,end] (then the scan provably stays inside: it starts inside and stops at end()).  When
 //   at(p) is outside the data the calls are made in a forked child on a copy of the input placed
 //   directly in front of an inaccessible page, so that a read behind the data faults
-//   deterministically; the child reports through a pipe, the parent records a crash / a pointer
-//   outside the data as violation.  Child results are reused for identical (byte,column) positions
-//   of the same unit and tracking mode (the helpers are pure functions of the position).
+//   deterministically.  Exploration uses ONE child per unit: it re-obtains every position of the
+//   unit, and for each distinct (tracking, byte, column) with an out-of-range at() calls
+//   end_of_line() and line_at() under sigsetjmp with a SIGSEGV/SIGBUS handler and reports
+//   "returned offset x" or "faulted" through a pipe (the helpers are pure functions of the
+//   position, so identical positions share the result).  If such a child dies anyway, and always
+//   in replay mode, one child per case is used and a fault simply terminates that child.  The
+//   parent records a fault / a pointer outside the data as violation and never crashes itself.
 #include <tao/pegtl.hpp>
 
 #include "engine/common.hpp"
 
+#include <cerrno>
+#include <csetjmp>
 #include <csignal>
 #include <map>
+#include <set>
 #include <optional>
 #include <sys/mman.h>
 #include <sys/resource.h>
@@ -307,15 +314,37 @@ struct Obs
    int term_sig = 0;
 };
 
+struct ForkKey
+{
+   int trk;
+   size_t pbyte, pcol;
+   bool operator<( const ForkKey& r ) const { return std::tie( trk, pbyte, pcol ) < std::tie( r.trk, r.pbyte, r.pcol ); }
+};
+
 struct Rec
 {
-   int stage;  // 1 = end_of_line returned, 2 = line_at returned
+   int stage;  // 1 = end_of_line returned, 2 = line_at returned, -1 / -2 = the call faulted (mode 3 only; a = signal)
+   int trk;
+   size_t pbyte, pcol;
    long a;
    unsigned long b;
 };
 
-// mode 0: parent (in-process, guarded); mode 1: child, call end_of_line then line_at unguarded, report through fd;
-// mode 2: child, call line_at only
+// fault recovery inside an expendable child (mode 3)
+static sigjmp_buf g_jb;
+static volatile sig_atomic_t g_fault_sig = 0;
+static void on_fault( int s )
+{
+   g_fault_sig = s;
+   siglongjmp( g_jb, 1 );
+}
+static std::set< ForkKey > g_child_seen;
+
+// mode 0: parent (in-process, guarded: end_of_line/line_at only when at() is inside the data)
+// mode 1: single-case child: call end_of_line then line_at unguarded, report through fd (a fault kills the child)
+// mode 2: single-case child: call line_at only
+// mode 3: unit child: for positions whose at() is outside the data call end_of_line and line_at, each under
+//         sigsetjmp with a SIGSEGV/SIGBUS handler, report "returned x" or "faulted" per distinct position
 template< pegtl::tracking_mode P, typename Eol >
 static void observe( const char* b, size_t n, const Init& I, int src, size_t k, Obs& o, int mode, int fd )
 {
@@ -374,12 +403,45 @@ static void observe( const char* b, size_t n, const Init& I, int src, size_t k, 
       }
       return;
    }
+   const int trk = ( P == pegtl::tracking_mode::lazy ) ? 1 : 0;
+   if( mode == 3 ) {
+      if( at_inside ) return;  // the parent handles these in-process
+      if( !g_child_seen.insert( ForkKey{ trk, o.pbyte, o.pcol } ).second ) return;
+      {
+         Rec r{ 0, trk, o.pbyte, o.pcol, 0, 0 };
+         if( sigsetjmp( g_jb, 1 ) == 0 ) {
+            const long v = off( in.end_of_line( p ) );
+            r.stage = 1;
+            r.a = v;
+         }
+         else {
+            r.stage = -1;
+            r.a = long( g_fault_sig );
+         }
+         (void)!write( fd, &r, sizeof r );
+      }
+      {
+         Rec r{ 0, trk, o.pbyte, o.pcol, 0, 0 };
+         if( sigsetjmp( g_jb, 1 ) == 0 ) {
+            const std::string_view sv = in.line_at( p );
+            r.stage = 2;
+            r.a = off( sv.data() );
+            r.b = sv.size();
+         }
+         else {
+            r.stage = -2;
+            r.a = long( g_fault_sig );
+         }
+         (void)!write( fd, &r, sizeof r );
+      }
+      return;
+   }
    if( mode == 1 ) {
-      Rec r{ 1, off( in.end_of_line( p ) ), 0 };
+      Rec r{ 1, trk, o.pbyte, o.pcol, off( in.end_of_line( p ) ), 0 };
       (void)!write( fd, &r, sizeof r );
    }
    const std::string_view sv = in.line_at( p );
-   Rec r{ 2, off( sv.data() ), sv.size() };
+   Rec r{ 2, trk, o.pbyte, o.pcol, off( sv.data() ), sv.size() };
    (void)!write( fd, &r, sizeof r );
 }
 
@@ -486,6 +548,85 @@ static ChildRes run_child( const Unit& u, int trk, int src, size_t k, int mode )
    return cr;
 }
 
+static bool oracle_reachable_by_tokens( const LineMap& lm, size_t k );
+
+// One child for a whole unit: every position (both tracking modes, every k, every source) whose at() lies
+// outside the data.  Faults are caught inside the child (mode 3); should the recovery itself fail the child
+// dies, the parent then misses some keys and falls back to one child per case (run_child).
+static bool run_unit_child( const Unit& u, std::map< ForkKey, Obs >& cache )
+{
+   if( !g_guard_end ) return false;
+   int fds[ 2 ];
+   if( pipe( fds ) != 0 ) return false;
+   const pid_t pid = fork();
+   if( pid < 0 ) {
+      close( fds[ 0 ] );
+      close( fds[ 1 ] );
+      return false;
+   }
+   if( pid == 0 ) {
+      close( fds[ 0 ] );
+      struct sigaction sa;
+      memset( &sa, 0, sizeof sa );
+      sa.sa_handler = on_fault;
+      sigemptyset( &sa.sa_mask );
+      sigaction( SIGSEGV, &sa, nullptr );
+      sigaction( SIGBUS, &sa, nullptr );
+      alarm( 20 );
+      const size_t n = u.data.size();
+      char* b = g_guard_end - n;
+      memcpy( b, u.data.data(), n );
+      for( int trk = 0; trk < 2; ++trk )
+         for( size_t k = 0; k <= n; ++k )
+            for( int src = 0; src < S_COUNT; ++src ) {
+               if( src == S_EOLERR && !oracle_reachable_by_tokens( u.lm, k ) ) continue;
+               Obs o;
+               observe_dyn( u.pol, trk, b, n, u.init, src, k, o, 3, fds[ 1 ] );
+            }
+      _exit( 0 );
+   }
+   close( fds[ 1 ] );
+   Rec r;
+   for( ;; ) {
+      size_t got = 0;
+      while( got < sizeof r ) {
+         const ssize_t x = read( fds[ 0 ], reinterpret_cast< char* >( &r ) + got, sizeof r - got );
+         if( x <= 0 ) break;
+         got += size_t( x );
+      }
+      if( got < sizeof r ) break;
+      Obs& o = cache[ ForkKey{ r.trk, r.pbyte, r.pcol } ];
+      o.forked = true;
+      switch( r.stage ) {
+         case 1:
+            o.eol_returned = true;
+            o.eol_off = r.a;
+            break;
+         case -1:
+            o.eol_crashed = true;
+            o.term_sig = int( r.a );
+            break;
+         case 2:
+            o.la_tried = true;
+            o.la_returned = true;
+            o.la_off = r.a;
+            o.la_size = r.b;
+            break;
+         case -2:
+            o.la_tried = true;
+            o.la_crashed = true;
+            o.term_sig = int( r.a );
+            break;
+      }
+   }
+   close( fds[ 0 ] );
+   int status = 0;
+   while( waitpid( pid, &status, 0 ) < 0 && errno == EINTR ) {
+   }
+   if( WIFSIGNALED( status ) ) vf::count( "unit children that died (fallback to one child per case)" );
+   return true;
+}
+
 // =================================================================================================
 // Checking
 // =================================================================================================
@@ -520,8 +661,10 @@ static void emit( const Ctx& c, const std::string& helper_and_verdict, const cha
 {
    if( !g_emit_trk.empty() && g_emit_trk != c.trk ) return;
    const std::string sig = "C19|" + helper_and_verdict + ": " + circ;
-   const std::string detail = "\"input\":\"" + vf::jesc( vf::show( c.u.data ) ) + "\",\"size\":\"" + std::to_string( c.u.data.size() ) + "\",\"policy\":\"" + POL_NAME[ c.u.pol ] + "\",\"tracking\":\"" + c.trk + "\",\"initial\":\"" + c.u.init.str() + "\",\"k\":\"" + std::to_string( c.k ) + "\",\"source\":\"" + SRC_NAME[ c.src ] + "\",\"position\":\"byte " + std::to_string( c.o.pbyte ) + " line " + std::to_string( c.o.pline ) + " column " + std::to_string( c.o.pcol ) + "\",\"expected\":\"" + vf::jesc( expected ) + "\",\"observed\":\"" + vf::jesc( observed ) + "\"";
-   vf::violation( sig, detail, case_string( c.u, c.trk, c.src, c.k ) );
+   const auto seen = vf::st.viol_by_sig.find( sig );
+   const bool printed = ( seen == vf::st.viol_by_sig.end() ) || ( seen->second < 3 );  // vf::violation prints the first 3 per signature
+   const std::string detail = !printed ? std::string() : "\"input\":\"" + vf::jesc( vf::show( c.u.data ) ) + "\",\"size\":\"" + std::to_string( c.u.data.size() ) + "\",\"policy\":\"" + POL_NAME[ c.u.pol ] + "\",\"tracking\":\"" + c.trk + "\",\"initial\":\"" + c.u.init.str() + "\",\"k\":\"" + std::to_string( c.k ) + "\",\"source\":\"" + SRC_NAME[ c.src ] + "\",\"position\":\"byte " + std::to_string( c.o.pbyte ) + " line " + std::to_string( c.o.pline ) + " column " + std::to_string( c.o.pcol ) + "\",\"expected\":\"" + vf::jesc( expected ) + "\",\"observed\":\"" + vf::jesc( observed ) + "\"";
+   vf::violation( sig, detail, printed ? case_string( c.u, c.trk, c.src, c.k ) : std::string() );
    if( circ == CIRC_PAIR_DEFAULT || circ == CIRC_PAIR_NONDEF ) vf::count( ( std::string( "cr_crlf-after-CRLF violations by tracking/source: " ) + c.trk + "/" + SRC_NAME[ c.src ] ).c_str() );
    if( c.u.init.is_default() )
       vf::count( "violations with default initial counters" );
@@ -589,7 +732,7 @@ static void check_case( const Unit& u, const char* trk, int src, size_t k, const
    }
    else if( o.forked ) {
       if( o.eol_crashed )
-         emit( c, "end_of_line() crashes reading behind the input data (scan starts at the out-of-range at())", circumstance( c, true, false, false ), exact ? offs( long( e.eol ) ) : "inside [begin,end]", "child terminated by signal " + std::to_string( o.term_sig ) + " (input placed directly before an inaccessible page)" );
+         emit( c, "end_of_line() crashes reading behind the input data (scan starts at the out-of-range at())", circumstance( c, true, false, false ), exact ? offs( long( e.eol ) ) : "inside [begin,end]", "signal " + std::to_string( o.term_sig ) + " on reading behind the data (child process, input placed directly before an inaccessible page)" );
       else if( o.eol_returned && !inside( o.eol_off ) )
          emit( c, "end_of_line() yields a pointer outside the input data", circumstance( c, true, false, true ), exact ? offs( long( e.eol ) ) : "inside [begin,end]", offs( o.eol_off ) );
       else if( o.eol_returned && exact && o.eol_off != long( e.eol ) )
@@ -608,7 +751,7 @@ static void check_case( const Unit& u, const char* trk, int src, size_t k, const
          emit( c, "line_at() is not exactly the line's bytes", circumstance( c, true, true, true ), exp, obs );
    }
    else if( o.la_tried && o.la_crashed ) {
-      emit( c, "line_at() crashes reading behind the input data (scan starts at the out-of-range at())", circumstance( c, true, false, false ), "a range inside [begin,end]", "child terminated by signal " + std::to_string( o.term_sig ) + " (input placed directly before an inaccessible page)" );
+      emit( c, "line_at() crashes reading behind the input data (scan starts at the out-of-range at())", circumstance( c, true, false, false ), "a range inside [begin,end]", "signal " + std::to_string( o.term_sig ) + " on reading behind the data (child process, input placed directly before an inaccessible page)" );
    }
 
    // ---- aux: byte() of the input vs position().byte -------------------------------------------
@@ -638,13 +781,6 @@ static void check_eager_vs_lazy( const Unit& u, int src, size_t k, const Obs& oe
 // Driver
 // =================================================================================================
 
-struct ForkKey
-{
-   int trk;
-   size_t pbyte, pcol;
-   bool operator<( const ForkKey& r ) const { return std::tie( trk, pbyte, pcol ) < std::tie( r.trk, r.pbyte, r.pcol ); }
-};
-
 static void apply_child( Obs& o, const ChildRes& cr )
 {
    o.forked = cr.ok;
@@ -658,7 +794,7 @@ static void apply_child( Obs& o, const ChildRes& cr )
 }
 
 // all cases of one (unit, k, src): both tracking modes
-static void process_position( const Unit& u, size_t k, int src, std::map< ForkKey, Obs >& fork_cache, bool replay )
+static void process_position( const Unit& u, size_t k, int src, std::map< ForkKey, Obs >& fork_cache, bool& unit_child_done, bool replay )
 {
    const size_t n = u.data.size();
    if( src == S_EOLERR && !oracle_reachable_by_tokens( u.lm, k ) ) {
@@ -684,14 +820,18 @@ static void process_position( const Unit& u, size_t k, int src, std::map< ForkKe
       if( !o.inproc ) {
          // at() outside the data: end_of_line / line_at only in a child
          const ForkKey key{ trk, o.pbyte, o.pcol };
+         if( !replay && !unit_child_done ) {
+            unit_child_done = true;
+            if( run_unit_child( u, fork_cache ) ) vf::count( "unit children forked (all positions of a unit with an out-of-range at())" );
+         }
          auto it = fork_cache.find( key );
          if( it == fork_cache.end() ) {
             Obs r = o;
             const ChildRes cr = run_child( u, trk, src, k, 1 );
-            vf::count( "children forked (end_of_line on an out-of-range at())" );
+            vf::count( "single-case children forked (end_of_line on an out-of-range at())" );
             apply_child( r, cr );
             if( r.eol_crashed ) {
-               vf::count( "children crashed in end_of_line" );
+               vf::count( "single-case children crashed in end_of_line" );
                if( replay || g_la_forks < 64 ) {
                   ++g_la_forks;
                   const ChildRes c2 = run_child( u, trk, src, k, 2 );
@@ -707,14 +847,13 @@ static void process_position( const Unit& u, size_t k, int src, std::map< ForkKe
                   vf::count( "line_at not called: end_of_line crashed for this position" );
             }
             else if( cr.ok )
-               vf::count( "children survived end_of_line" );
+               vf::count( "single-case children survived end_of_line" );
             else
                vf::count( "fork failed: end_of_line/line_at not called" );
             it = fork_cache.emplace( key, r ).first;
          }
-         else
-            vf::count( "child result reused for an identical position" );
          const Obs& r = it->second;
+         vf::count( r.eol_crashed ? "cases: end_of_line faulted in the child" : "cases: end_of_line returned in the child" );
          o.forked = r.forked;
          o.eol_crashed = r.eol_crashed;
          o.eol_returned = r.eol_returned;
@@ -758,10 +897,11 @@ static void process_unit( const Unit& u )
 {
    ++vf::st.states;
    std::map< ForkKey, Obs > fork_cache;
+   bool unit_child_done = false;
    const size_t n = u.data.size();
    for( size_t k = 0; k <= n; ++k )
       for( int src = 0; src < S_COUNT; ++src )
-         process_position( u, k, src, fork_cache, false );
+         process_position( u, k, src, fork_cache, unit_child_done, false );
 }
 
 static int replay_case( const std::string& cs )
@@ -798,7 +938,8 @@ static int replay_case( const std::string& cs )
    u.lm = oracle_split( u.pol, u.data );
    g_emit_trk = f[ 2 ];
    std::map< ForkKey, Obs > fork_cache;
-   process_position( u, k, src, fork_cache, true );
+   bool unit_child_done = true;  // replay: one real child per case, a fault terminates it
+   process_position( u, k, src, fork_cache, unit_child_done, true );
    vf::finish();
    return 0;
 }
